@@ -201,13 +201,81 @@ func genMV(t *rapid.T, depth int, budget *int, spine bool) MV {
 	}
 }
 
+// finite run-time expressions (indexes into rtExprs)
+func genFiniteExpr(t *rapid.T) MV {
+	return MV{K: "expr", I: int64(rapid.IntRange(rtNaNLast+1, len(rtExprs)-1).Draw(t, "expr"))}
+}
+
+// wrap nests inner under `levels` containers of mixed kinds.
+func wrap(t *rapid.T, inner MV, levels int) MV {
+	kinds := rapid.SampledFrom([]string{"mixed", "vec", "map", "list"}).Draw(t, "wrapkind")
+	for i := 0; i < levels; i++ {
+		k := kinds
+		if k == "mixed" {
+			k = rapid.SampledFrom([]string{"vec", "map", "list"}).Draw(t, "wk")
+		}
+		switch k {
+		case "map":
+			inner = MV{K: "map", L: []MV{inner}, MK: []MKey{{B: []byte("k"), Sym: i%3 == 0}}}
+		default:
+			inner = MV{K: k, L: []MV{inner}}
+		}
+	}
+	return inner
+}
+
+// genDeepMV: one branch nested around the encoder's guard depth (64) or far
+// past it, next to shallow members that hold numbers.
+func genDeepMV(t *rapid.T) MV {
+	levels := rapid.OneOf(rapid.IntRange(58, 70), rapid.IntRange(61, 66), rapid.IntRange(100, 130)).Draw(t, "levels")
+	budget := 8
+	leaf := MV{K: "vec", L: []MV{genScalar(t), {K: "int", I: genInt().Draw(t, "li")}, {K: "float", FB: math.Float64bits(genFloat().Draw(t, "lf"))}}}
+	if rapid.IntRange(0, 3).Draw(t, "leafk") == 0 {
+		leaf = genMV(t, 2, &budget, false)
+	}
+	deep := wrap(t, leaf, levels)
+	sib := func(label string) MV {
+		switch rapid.IntRange(0, 3).Draw(t, label) {
+		case 0:
+			return MV{K: "int", I: genInt().Draw(t, label+"i")}
+		case 1:
+			return MV{K: "float", FB: math.Float64bits(genFloat().Draw(t, label+"f"))}
+		case 2:
+			return genFiniteExpr(t)
+		}
+		return genScalar(t)
+	}
+	switch rapid.IntRange(0, 3).Draw(t, "top") {
+	case 0:
+		return MV{K: "map", L: []MV{sib("s1"), deep, sib("s2")}, MK: []MKey{{B: []byte("id")}, {B: []byte("deep"), Sym: true}, {B: []byte("ratio")}}}
+	case 1:
+		return MV{K: "vec", L: []MV{sib("s1"), deep, sib("s2")}}
+	case 2:
+		return MV{K: "list", L: []MV{deep, sib("s1")}}
+	}
+	return deep
+}
+
 func genValueCase() *rapid.Generator[ValueCase] {
 	return rapid.Custom(func(t *rapid.T) ValueCase {
 		depth := rapid.SampledFrom([]int{0, 0, 1, 1, 2, 2, 2, 3, 3, 3, 4, 5, 6, 8}).Draw(t, "depth")
 		spine := depth >= 4 && rapid.Bool().Draw(t, "spine")
 		budget := 45
+		var v MV
+		switch k := rapid.IntRange(0, 15).Draw(t, "shape"); {
+		case k == 0:
+			v = genDeepMV(t)
+		case k == 1:
+			// a float computed at run time, at top level or inside a container
+			v = genFiniteExpr(t)
+			if rapid.Bool().Draw(t, "nest") {
+				v = MV{K: "vec", L: []MV{genScalar(t), v}}
+			}
+		default:
+			v = genMV(t, depth, &budget, spine)
+		}
 		return ValueCase{
-			V:         genMV(t, depth, &budget, spine),
+			V:         v,
 			DumpSN:    rapid.IntRange(0, 3).Draw(t, "dump_sn") == 0,
 			LoadSN:    rapid.IntRange(0, 3).Draw(t, "load_sn") == 0,
 			LoadEI:    rapid.Bool().Draw(t, "load_ei"),
@@ -542,4 +610,118 @@ func genDocCase() *rapid.Generator[DocCase] {
 			OmitFalse: rapid.Bool().Draw(t, "omit_false"),
 		}
 	})
+}
+
+// ---------- non-finite floats ----------
+
+func genNonFiniteLeaf(t *rapid.T, kind int) MV {
+	// kind 0 -inf, 1 +inf, 2 nan; half host-built, half computed at run time
+	if rapid.Bool().Draw(t, "host") {
+		f := []float64{math.Inf(-1), math.Inf(1), math.NaN()}[kind]
+		return MV{K: "float", FB: math.Float64bits(f)}
+	}
+	lo, hi := 0, rtNegInfLast
+	switch kind {
+	case 1:
+		lo, hi = rtNegInfLast+1, rtPosInfLast
+	case 2:
+		lo, hi = rtPosInfLast+1, rtNaNLast
+	}
+	return MV{K: "expr", I: int64(rapid.IntRange(lo, hi).Draw(t, "expr"))}
+}
+
+// plant replaces the idx-th scalar leaf (pre-order) of m by leaf.
+func plant(m *MV, idx *int, leaf MV) bool {
+	switch m.K {
+	case "vec", "list", "map":
+		for i := range m.L {
+			if plant(&m.L[i], idx, leaf) {
+				return true
+			}
+		}
+		return false
+	}
+	if *idx == 0 {
+		*m = leaf
+		return true
+	}
+	*idx--
+	return false
+}
+
+func countLeaves(m MV) int {
+	switch m.K {
+	case "vec", "list", "map":
+		n := 0
+		for _, c := range m.L {
+			n += countLeaves(c)
+		}
+		return n
+	}
+	return 1
+}
+
+func genNonFiniteCase() *rapid.Generator[NonFiniteCase] {
+	return rapid.Custom(func(t *rapid.T) NonFiniteCase {
+		kind := rapid.SampledFrom([]int{0, 0, 1, 2}).Draw(t, "kind")
+		leaf := genNonFiniteLeaf(t, kind)
+		var v MV
+		switch shape := rapid.IntRange(0, 9).Draw(t, "shape"); {
+		case shape < 2:
+			v = leaf
+		case shape < 3:
+			v = wrap(t, MV{K: "vec", L: []MV{{K: "int", I: 1}, leaf}}, rapid.SampledFrom([]int{1, 2, 30, 62, 63, 64, 65, 110}).Draw(t, "levels"))
+		default:
+			budget := 25
+			v = genMV(t, rapid.IntRange(1, 4).Draw(t, "depth"), &budget, rapid.Bool().Draw(t, "spine"))
+			n := countLeaves(v)
+			if n == 0 {
+				v = MV{K: "vec", L: []MV{v, leaf}}
+			} else {
+				idx := rapid.IntRange(0, n-1).Draw(t, "at")
+				plant(&v, &idx, leaf)
+				if rapid.IntRange(0, 3).Draw(t, "second") == 0 && n > 1 {
+					idx = rapid.IntRange(0, n-1).Draw(t, "at2")
+					plant(&v, &idx, genNonFiniteLeaf(t, kind))
+				}
+			}
+		}
+		// the planted leaf may sit under a map key that a later entry sets
+		// again; make sure the value really holds a non-finite float
+		if !holdsPlanted(v) {
+			v = MV{K: "vec", L: []MV{v, leaf}}
+		}
+		return NonFiniteCase{
+			V:         v,
+			SN:        rapid.Bool().Draw(t, "sn"),
+			OmitFalse: rapid.Bool().Draw(t, "omit_false"),
+			ViaEval:   rapid.IntRange(0, 3).Draw(t, "via_eval") == 0,
+		}
+	})
+}
+
+// holdsPlanted: a non-finite leaf (host bits or a non-finite expr index) is
+// reachable through effective map entries.
+func holdsPlanted(m MV) bool {
+	switch m.K {
+	case "float":
+		f := m.F()
+		return math.IsNaN(f) || math.IsInf(f, 0)
+	case "expr":
+		return m.I <= rtNaNLast
+	case "map":
+		_, vals := m.entries()
+		for _, c := range vals {
+			if holdsPlanted(c) {
+				return true
+			}
+		}
+		return false
+	}
+	for _, c := range m.L {
+		if holdsPlanted(c) {
+			return true
+		}
+	}
+	return false
 }
